@@ -1578,6 +1578,35 @@ pub fn all(out: &mut Vec<GSpec>) {
             ge.push(x);
         }
     }
+    // the translation from the unoptimized AST (`pest_optimizer = false`): a slice of the corpus once more
+    let mut raw: Vec<GSpec> = vec![];
+    for s in out.iter() {
+        if !s.options.is_empty() || s.extras {
+            continue;
+        }
+        let pick = match s.family.as_str() {
+            "expr" => ["expr_none_q0", "expr_none_q1", "expr_ws_q1", "expr_none_t0", "expr_ws_t1"].contains(&s.id.as_str()),
+            "exprx" => s.quick && s.id.ends_with("0"),
+            "kind" => s.id == "kind_ws_b0" || s.id == "kind_both_b3" || s.id == "kind_none_b1",
+            "stack" => s.id == "stack_q0" || s.id == "stack_q1" || s.id == "stack_t0",
+            "tree" => s.id == "tree_1" || s.id == "tree_2",
+            "sub" => true,
+            "utf8" => s.id == "utf8_q0" || s.id == "utf8_ws0",
+            "slice" => s.id == "slice_ctx",
+            _ => false,
+        };
+        if pick {
+            let mut x = s.clone();
+            x.id = format!("{}_raw", s.id);
+            x.family = format!("{}_raw", s.family);
+            x.options = vec!["pest_optimizer = false".to_string()];
+            if s.getters {
+                x.options.push("emit_rule_reference".to_string());
+            }
+            raw.push(x);
+        }
+    }
+    ge.extend(raw);
     // node tags (grammar-extras only): with the default options a tag is transparent for the getters
     if want("mention") {
         let mut rules = vec![
